@@ -286,8 +286,10 @@ func (fv *FV) typeAssert(st *State, v Term, target types.Type, pos token.Pos) (T
 			return Term{sx(c.Acc, v.S), c.Payload}, Term{"(" + c.Tester + " " + v.S + ")", SBool}
 		}
 		if _, isTP := types.Unalias(target).(*types.TypeParam); isTP {
-			fv.note("type assertion to a type parameter is assumed to succeed: " + target.String())
-			return fv.fresh("astp", tso), tBool(true)
+			// nothing is known about the type argument: the assertion may fail (the unchecked form is an obligation
+			// that cannot be discharged; the comma-ok form explores both outcomes)
+			fv.note("type assertion to a type parameter: success unknown: " + target.String())
+			return fv.fresh("astp", tso), fv.fresh("astpok", SBool)
 		}
 		// assertion to an interface type (e.g. HasAsset): success unknown, payload unknown
 		if _, isI := target.Underlying().(*types.Interface); isI {
